@@ -48,6 +48,26 @@ def node_classes_returned(model, factory_fn, visitor_mod) -> Dict[str, List[ast.
     return out
 
 
+def discriminator_key_if_absent(ctx, rule):
+    model = ctx.model
+    da = model.func(f"{SER_MOD}.DiscriminatedAlternative.serialize")
+    st = [n for n in walk_no_nested(da.node) if isinstance(n, ast.Subscript) and isinstance(n.ctx, ast.Store) and norm(n.slice) == "self.alias"]
+    parents = {c: p for p in ast.walk(da.node) for c in ast.iter_child_nodes(p)}
+    ok = bool(st)
+    for n in st:
+        p = parents.get(n)
+        guarded = False
+        while p is not None:
+            if isinstance(p, ast.If) and "self.alias not in res" in norm(p.test) and "isinstance(res, dict)" in norm(p.test):
+                guarded = True
+            p = parents.get(p)
+        ok = ok and guarded
+    ctx.check(ok, rule, da.qualname, st[0] if st else da.node.body[0],
+              "the discriminator key is written even when the alternative's own serialization already produced it: a member declaring the discriminator as a multi-valued Literal field gets its value overwritten by the alternative's key and no longer round-trips",
+              da, da.node, detail="res[self.alias] = self.key only if res is a dict and the key is absent")
+
+
+
 WRAPPERS = {"VariadicTupleMethod", "FrozenSetMethod"}  # accept what the wrapped list node accepts
 
 
@@ -207,21 +227,7 @@ def check(ctx):
     ends_raise = isinstance(cur, ast.Raise) or (isinstance(cur, ast.If) is False and isinstance(last, ast.Raise))
     ctx.check(ends_raise, "C13.R4", ec.qualname, last, "expected_class has a silent default: unsupported union members would be dispatched as `object`", ec, last, detail="final else raises TypeError")
 
-    da = model.func(f"{SER_MOD}.DiscriminatedAlternative.serialize")
-    st = [n for n in walk_no_nested(da.node) if isinstance(n, ast.Subscript) and isinstance(n.ctx, ast.Store) and norm(n.slice) == "self.alias"]
-    parents = {c: p for p in ast.walk(da.node) for c in ast.iter_child_nodes(p)}
-    ok = bool(st)
-    for n in st:
-        p = parents.get(n)
-        guarded = False
-        while p is not None:
-            if isinstance(p, ast.If) and "self.alias not in res" in norm(p.test) and "isinstance(res, dict)" in norm(p.test):
-                guarded = True
-            p = parents.get(p)
-        ok = ok and guarded
-    ctx.check(ok, "C13.R4", da.qualname, st[0] if st else da.node.body[0],
-              "the discriminator key is written even when the alternative's own serialization already produced it: a member declaring the discriminator as a multi-valued Literal field gets its value overwritten by the alternative's key and no longer round-trips",
-              da, da.node, detail="res[self.alias] = self.key only if res is a dict and the key is absent")
+    discriminator_key_if_absent(ctx, "C13.R4")
 
     # ---------------- R5
     check_counters(ctx, "C13.R5")
